@@ -973,6 +973,35 @@ pub fn worker(ctx: &mut Ctx) {
         }
     }
 
+    // P. white-space runs: one blank of a rule sentence becomes a run of several white-space tokens (space + line end,
+    //    tab, two blanks ...): a pattern that says "white space" may then match more tokens than the rule's author counted
+    {
+        let runs = [" \n", "\n ", "\t ", " \n ", "  \n", "\n\t", " \r\n"];
+        let per_sentence = ctx.budget(4, 12) as usize;
+        for (si, sent) in corpus.sentences.iter().enumerate() {
+            unit += 1;
+            if !ctx.mine(unit) {
+                continue;
+            }
+            let chars: Vec<char> = sent.chars().collect();
+            let blanks: Vec<usize> = chars.iter().enumerate().filter(|(_, c)| **c == ' ').map(|(i, _)| i).collect();
+            if blanks.is_empty() || chars.len() > 300 {
+                continue;
+            }
+            let (cfg, dialect) = stream.cfg_for(unit);
+            let mut r = Rng((si as u64).wrapping_mul(0x9E3779B97F4A7C15) ^ ctx.seed);
+            for k in 0..per_sentence.min(blanks.len() * 2) {
+                let at = blanks[r.below(blanks.len())];
+                let run = runs[(k + si) % runs.len()];
+                let mut t: String = chars[..at].iter().collect();
+                t.push_str(run);
+                t.extend(chars[at + 1..].iter());
+                let fe = if k % 3 == 2 { Fe::Md } else { Fe::Plain };
+                run!(Case { fam: "whitespace-run", fe, wrap: Wrap::None, text: t, cfg: cfg.clone(), dialect });
+            }
+        }
+    }
+
     // J. configurations x dialects on rule sentences
     {
         let n = ctx.budget(15_000, 250_000);
